@@ -13,6 +13,7 @@ import (
 	"math/rand"
 	"os"
 	"reflect"
+	"runtime"
 	"runtime/debug"
 	"strconv"
 	"strings"
@@ -224,21 +225,20 @@ func (c *rtCtx) evalRT(k *kind, m wire.Message, sz int, pver uint32, enc wire.Me
 }
 
 // rtBatch: n generated messages of one kind, each evaluated at two (pver, encoding) points.
-func (c *rtCtx) rtBatch(k *kind, rng *rand.Rand, id string, n int) {
+func (c *rtCtx) rtBatch(k *kind, rng *rand.Rand, id string, n int, boundary bool) {
 	t := c.t
 	for i := 0; i < n; i++ {
 		sz := szSmall
 		switch {
-		case i < 5:
+		case i < 5 && boundary:
 			sz = []int{szZero, szOne, szMaxMinus1, szMax, szMedium}[i]
+		case i < 2:
+			sz = []int{szZero, szOne}[i]
 		case rng.Intn(25) == 0:
 			sz = szMedium
 		}
 		m := genMsg(rng, k.cmd, sz)
 		sub := id + "/" + utoa(uint64(i))
-		if c.r.Only != "" && c.r.Only != id && c.r.Only != sub {
-			continue
-		}
 		net := wire.MainNet
 		if rng.Intn(5) == 0 {
 			net = t.netList[rng.Intn(len(t.netList))]
@@ -246,9 +246,13 @@ func (c *rtCtx) rtBatch(k *kind, rng *rand.Rand, id string, n int) {
 		// two evaluations per message: a drawn version with BaseEncoding, another with LatestEncoding;
 		// the first five messages of a batch (the count classes) walk the boundary list instead
 		p1, p2 := t.pickPver(rng), t.pickPver(rng)
-		if i < 5 {
+		if i < 5 && boundary {
 			p1 = wire.ProtocolVersion
 			p2 = t.pvers[rng.Intn(len(t.pvers))]
+		}
+		// replay filter after every random draw, so that skipped messages consume the stream too
+		if c.r.Only != "" && c.r.Only != id && c.r.Only != sub {
+			continue
 		}
 		c.evalRT(k, m, sz, p1, wire.BaseEncoding, "BaseEncoding", net, sub)
 		c.evalRT(k, m, sz, p2, wire.LatestEncoding, "LatestEncoding", net, sub)
@@ -257,12 +261,12 @@ func (c *rtCtx) rtBatch(k *kind, rng *rand.Rand, id string, n int) {
 
 func roundTrips(r *ev.Run, t *tables) {
 	batches := r.Pick(75, 250)
-	per := r.Pick(125, 1250) // messages per batch; two evaluations each
+	per := r.Pick(250, 1250) // messages per batch; two evaluations each
 	c := &rtCtx{r: r, t: t, cnt: map[string]int64{}, sig: map[string]struct{}{}}
 	for _, k := range t.listed {
 		for b := 0; b < batches; b++ {
 			id := fmt.Sprintf("rt/%s/%d", k.cmd, b)
-			r.Do(id, func() { defer timing(id)(); c.rtBatch(k, r.Rand(id), id, per) })
+			r.Do(id, func() { defer timing(id)(); c.rtBatch(k, r.Rand(id), id, per, b%5 == 0) })
 		}
 	}
 	c.flush()
@@ -307,7 +311,9 @@ func concurrentRoundTrips(r *ev.Run, t *tables) {
 // phase 2: hostile inputs
 
 func hostile(r *ev.Run, t *tables) {
-	scale := r.Pick(2, 40)
+	scale := r.Pick(5, 100)
+	// ReadMemStats stops the world: keep the world of this (single-decoder) process small
+	defer runtime.GOMAXPROCS(runtime.GOMAXPROCS(2))
 	h := &hz{r: r, t: t, dec: newDecoder(r.Scratch), cnt: map[string]int64{}, sig: map[string]struct{}{}}
 	for _, k := range t.kinds {
 		for _, cl := range perCmdClasses {
